@@ -91,7 +91,7 @@ where
     S: Into<Arc<Source<T>>> + Send + Sync,
 {
     #[cfg(callbag_verif)]
-    use crate::verif_hooks::{AtomicBool, AtomicUsize};
+    use crate::verif_hooks::{ArcSwapOption, AtomicBool, AtomicUsize};
     #[cfg(feature = "tracing")]
     let merge_fn_span = Span::current();
     let sources: Box<[Arc<Source<T>>]> = Vec::from(sources).into_iter().map(|s| s.into()).collect();
